@@ -214,3 +214,28 @@ PROPS['C12'] = {
                    '"pointer never decreases": never reads backwards); the loop has the variant len(data) - pointer; '
                    'every recursive call proves the measure len(script) strictly decreases; for all byte strings',
 }
+
+
+PROPS['C03'] = {
+    'functions': ['functions.OP_CHECK_MULTISIG', 'functions.OP_CHECK_MULTISIG_VERIFY', 'functions.OP_CHECK_SIG',
+                  'functions.OP_VERIFY', 'functions.bytes_to_bool', 'functions.run_sig_extensions',
+                  'functions.run_plugins'] + CLASSES + ERRORS,
+    'select': [r'^functions\.OP_CHECK_MULTISIG', r'^functions\.OP_CHECK_SIG/', r'^lemma/C03/'],
+    'trusted_base': TRUSTED_COMMON + ['E4: Ed25519 verification is an uninterpreted predicate of (key, message, signature)'],
+    'assumptions': ASSUME_COMMON + [
+        'exactness ("true exactly when ...") is proved for m, n <= 3 (quick) / n <= 4 plus (2,5), (3,5) (thorough) by '
+        'executing the real loop; the safety half of the contract (limits, frames, termination) holds for all (m, n)',
+        'I-SIG-UNIQ (completeness direction only): a signature verifies under at most one public key value; and the '
+        'listed keys are pairwise different (make_multisig_lock requires quorum <= number of unique keys). The soundness '
+        'direction (true only with m pairwise different signatures valid under m different listed positions) is '
+        'unconditional',
+        'no signature-extension plugin is installed (a plugin may change the cache between two checks)',
+        'order independence follows from exactness: the matching predicate is symmetric in keys and in signatures',
+    ],
+    'extra': ['props.lemmas_multisig:c03_multisig'],
+    'explanation': 'three discharged steps: OP_CHECK_SIG body refines its C02 spec; the spec has the effect of the '
+                   'abstract contract abs_check_sig whenever it returns (lemma C03/abs-sound); the real body of '
+                   'OP_CHECK_MULTISIG, run over the abstract contract with sig_valid an uninterpreted predicate, yields '
+                   'true only if an injective matching of pairwise different signatures to listed keys exists, and '
+                   'exactly then for pairwise different keys',
+}
